@@ -30,7 +30,7 @@ func e3Alnum(s string) bool {
 // mapped at API level (gone -> 410) and at service level (conflict -> 409),
 // re-declared by two methods in either order.
 func VerifC05_e3_inherited() {
-	msg := nondetStringUpTo("msg", 1)
+	msg := nondetStringUpTo("msg", deep(1))
 	second := nondetBool("second-method")
 	gone := nondetBool("gone")
 	var ret error
@@ -78,7 +78,7 @@ func VerifC05_e3_inherited() {
 // VerifC05_e3_cookies: attributes of a custom error type carried in response
 // cookies (one renamed on the wire, one optional).
 func VerifC05_e3_cookies() {
-	e := &svc.AuthErr{Reason: nondetStringUpTo("reason", 1), Challenge: nondetString("challenge", 1), Realm: nondetString("realm", 1)}
+	e := &svc.AuthErr{Reason: nondetStringUpTo("reason", deep(1)), Challenge: nondetString("challenge", 1), Realm: nondetString("realm", 1)}
 	verifAssume(e3Alnum(e.Challenge) && e3Alnum(e.Realm))
 	if nondetBool("hint-set") {
 		h := nondetString("hint", 1)
